@@ -92,3 +92,5 @@ def build(ck):
     from theories import indexing as IX
     C13.build3(ck, C13.theory(), rules_only=True)
     C12.build_rules(ck, IX.theory())
+    from props import C15
+    C15.build(ck)            # rotation / HWP / polariser patterns: check accepts the documented pairs, apply succeeds
